@@ -23,6 +23,9 @@ import (
 type Case struct {
 	Files  map[string]string `json:"files"`
 	Config cfggen.Config     `json:"config"`
+	// UserModel: add an object type bound to a hand-written Go struct whose fields are shared by
+	// several schema fields (fieldName aliases, names differing only in case)
+	UserModel bool `json:"user_model,omitempty"`
 }
 
 var seq atomic.Int64
@@ -66,6 +69,16 @@ func Generate(c Case, keep bool) (dir string, f *vfrun.Failure) {
 	}
 	for n, content := range c.Files {
 		_ = os.WriteFile(filepath.Join(dir, n), []byte(content), 0o644)
+	}
+	if c.UserModel {
+		// an object bound to a user-written Go type, with several schema fields mapped to the same Go
+		// field (models.<T>.fields.<f>.fieldName) - the documented way to alias a field
+		rel, _ := filepath.Rel(filepath.Join(work, "h"), dir)
+		imp := "vh/" + filepath.ToSlash(rel) + "/um"
+		_ = os.MkdirAll(filepath.Join(dir, "um"), 0o755)
+		_ = os.WriteFile(filepath.Join(dir, "um", "um.go"), []byte("package um\n\n// VhOverlap is a hand-written model.\ntype VhOverlap struct {\n\tA     *string\n\tB     int\n\tUpper *string\n}\n"), 0o644)
+		_ = os.WriteFile(filepath.Join(dir, "zz_user.graphqls"), []byte("type VhOverlap {\n  a: String\n  aAlias: String\n  b: Int!\n  bAlias: Int!\n  upper: String\n  UPPER: String\n}\n\nextend type Query {\n  vhOverlap: VhOverlap\n}\n"), 0o644)
+		c.Config.ExtraModels = "  VhOverlap:\n    model: " + imp + ".VhOverlap\n    fields:\n      aAlias:\n        fieldName: a\n      bAlias:\n        fieldName: b\n"
 	}
 	_ = os.WriteFile(filepath.Join(dir, "gqlgen.yml"), []byte(c.Config.YAML()), 0o644)
 	tool := filepath.Join(work, "gqlgen-gen")
@@ -209,6 +222,10 @@ func gen(t *rapid.T) Case {
 		t.Skip("invalid schema: " + err.Error())
 	}
 	c := Case{Files: s.Files, Config: cfggen.Draw(t, "gen", objectFields(schema))}
+	c.UserModel = rapid.IntRange(0, 2).Draw(t, "usermodel") == 0
+	if c.UserModel {
+		vfrun.Label("user-model-with-aliased-fields")
+	}
 	if c.Config.Bools["omit_resolver_fields"] && !c.Config.Bools["omit_getters"] && vfrun.KnownListed("modelgen.omit-resolver-fields-interface-getter") {
 		// known finding, excluded by construction: a resolver field that an implemented interface
 		// declares keeps its getter although the struct field is omitted
